@@ -86,19 +86,21 @@ def keylog_objects(mods, keylog):
     return out
 
 
-def run_tls(mods, frames, keylog_objs, portmap=None, keep_original_ports=True, exp_meta=False, sessions=None):
-    """Feeds frames through Packet and main.handle_packet, then decrypts every session.  -> (output list, sessions)"""
+def run_program(mods, frames, keylog_objs, argv_extra=()):
+    """The real main.run() on the frames (capture reader, key-log file and writer are the stubs of rundriver): -> (writer calls,
+    TLS sessions, QUIC sessions).  Everything between reading a packet and writing the export is the program's own code."""
+    from tlv.harness import rundriver as RD
+    blocks = [(f[1], f[0]) for f in frames]
+    mods["tlexport.keylog_reader"].get_keys_from_string = lambda text: list(keylog_objs)
+    env = RD.RunEnv(mods, blocks, files={"k.log": ""})
+    out = RD.run_main(mods, ["-i", "in.pcapng", "-o", "o.pcapng", "-s", "k.log"] + list(argv_extra), env)
     main = mods["tlexport.main"]
-    Packet = mods["tlexport.packet"].Packet
-    main.server_ports[:] = [443, 44330, 443]
-    sessions = [] if sessions is None else sessions
-    for frame, ts, *_ in frames:
-        p = Packet(frame, ts)
-        if p.tcp_packet and len(p.tls_data) != 0:
-            main.handle_packet(p, None, keylog_objs, sessions, portmap or {}, keep_original_ports, exp_meta=exp_meta)
-    out = []
-    for s in sessions:
-        out.extend(s.decrypt())
+    return out, list(main.sessions), list(main.quic_sessions)
+
+
+def run_tls(mods, frames, keylog_objs, exp_meta=False):
+    """-> (output list, sessions)"""
+    out, sessions, _ = run_program(mods, frames, keylog_objs, ["-a"] if exp_meta else [])
     return out, sessions
 
 
@@ -140,18 +142,8 @@ def udp_frames(ep, dgrams):
     return out
 
 
-def run_quic(mods, frames, keylog_objs, portmap=None, keep_original_ports=True, metadata=False, quic_sessions=None):
-    main = mods["tlexport.main"]
-    Packet = mods["tlexport.packet"].Packet
-    main.server_ports[:] = [443, 44330, 443]
-    quic_sessions = [] if quic_sessions is None else quic_sessions
-    for frame, ts, *_ in frames:
-        p = Packet(frame, ts)
-        if p.udp_packet and len(p.tls_data) != 0:
-            main.handle_quic_packet(p, keylog_objs, quic_sessions, portmap or {}, keep_original_ports)
-    out = []
-    for s in quic_sessions:
-        out.extend(s.build_output(metadata))
+def run_quic(mods, frames, keylog_objs, metadata=False):
+    out, _, quic_sessions = run_program(mods, frames, keylog_objs, ["-a"] if metadata else [])
     return out, quic_sessions
 
 
